@@ -15,7 +15,7 @@ import (
 	"verif/harness/internal/model"
 	"verif/harness/internal/ops"
 	"verif/harness/internal/stack"
-	"verif/harness/internal/vt"
+	"verif/harness/vt"
 )
 
 func TestMain(m *testing.M) { vt.Main(m) }
